@@ -19,13 +19,14 @@
 
    Property level (what the user relies on): the observable result of any sequence and any
    bracketing of merges is a function of the *set* of parts merged: complete iff the header
-   and every announced client were received, and then every client is listed once. *)
-EXTENDS Integers, Sequences, FiniteSets, TLC, Functions
+   and every announced client were received, and then every client is listed once, in the
+   canonical order (the result is a sequence; see KeyOf / CanonSeq). *)
+EXTENDS Integers, Sequences, FiniteSets, TLC, Functions, SequencesExt
 
 CONSTANT MaskUpdated
 
 \* ---------------------------------------------------------------- bags of client ids
-EmptyBag == <<>>
+EmptyB == <<>>
 BagOf(set) == [c \in set |-> 1]
 BagAdd(a, b) == [c \in (DOMAIN a) \cup (DOMAIN b) |->
                    (IF c \in DOMAIN a THEN a[c] ELSE 0) + (IF c \in DOMAIN b THEN b[c] ELSE 0)]
@@ -61,11 +62,25 @@ BranchExact(inst, self, other) ==
 \* "have" instead of "extend" (a partial whose mask understates its contents is dropped)
 StaleMaskMatters(inst, self, other) == Branch(inst, self, other) # BranchExact(inst, self, other)
 
+\* ---------------------------------------------------------------- the clients and their order
+\* A client is the record the wire carries: (name, clan, country, score, flags).  Client id c
+\* (1..64) stands for the record whose fields are bits of c - 1, so that *every field has
+\* duplicates across clients and parts* (two names, two clans, ...) while whole records differ:
+\*   name = bit 0, clan = bit 1, country = bit 2, score = bit 3 + 2 * bit 5, flags = bit 4.
+KeyOf(c) == LET k == c - 1 IN
+  <<k % 2, (k \div 2) % 2, (k \div 4) % 2, ((k \div 8) % 2) + 2 * ((k \div 32) % 2), (k \div 16) % 2>>
+LexLess(x, y) == \E i \in 1..5 : x[i] < y[i] /\ \A j \in 1..(i - 1) : x[j] = y[j]
+\* the result handed out by get_info / take_info is a *sequence*: the collected clients in the
+\* canonical order (all fields compared, in wire order) — whatever order the parts arrived in
+CanonSeq(bag) ==
+  LET ids == SetToSortSeq(DOMAIN bag, LAMBDA a, b : LexLess(KeyOf(a), KeyOf(b))) IN
+  FoldLeft(LAMBDA acc, c : acc \o [j \in 1..bag[c] |-> c], <<>>, ids)
+
 \* get_info: complete iff the number of collected clients equals the announced number
 Announced(inst, x) == IF x.hdr THEN inst.n ELSE 0
 Complete(inst, x) == BagSize(x.cls) = Announced(inst, x)
 \* what the caller can observe of a partial
-Obs(inst, x) == [complete |-> Complete(inst, x), clients |-> IF Complete(inst, x) THEN x.cls ELSE EmptyBag]
+Obs(inst, x) == [complete |-> Complete(inst, x), clients |-> IF Complete(inst, x) THEN CanonSeq(x.cls) ELSE <<>>]
 
 \* ---------------------------------------------------------------- what the user relies on
 ClientsOf(inst, got) == UNION {inst.parts[p].cl : p \in got}
@@ -73,7 +88,7 @@ HeaderIn(inst, got) == \E p \in got : inst.parts[p].main
 PropComplete(inst, got) == HeaderIn(inst, got) /\ ClientsOf(inst, got) = 1..inst.n
 PropObs(inst, got) ==
   [complete |-> PropComplete(inst, got),
-   clients |-> IF PropComplete(inst, got) THEN BagOf(1..inst.n) ELSE EmptyBag]
+   clients |-> IF PropComplete(inst, got) THEN CanonSeq(BagOf(1..inst.n)) ELSE <<>>]
 \* result of a merge at the property level: an error is only legal for a genuine partial overlap
 PropResultOk(self, other, res) ==
   \/ res = "ok"
@@ -86,7 +101,7 @@ PropGot(self, other, res) == IF res = "ok" THEN self.got \cup other.got ELSE sel
 VARIABLES inst, pool, nparse, bug, act
 vars == <<inst, pool, nparse, bug, act>>
 
-RemoveAt(s, j) == [k \in 1..(Len(s) - 1) |-> IF k < j THEN s[k] ELSE s[k + 1]]
+DropAt(s, j) == [k \in 1..(Len(s) - 1) |-> IF k < j THEN s[k] ELSE s[k + 1]]
 
 Receive(p, MaxOps, MaxPool) ==
   /\ nparse < MaxOps /\ Len(pool) < MaxPool
@@ -106,7 +121,7 @@ MergeStep(i, j, known) ==
          m == Merge(inst, self, other)
          \* the history variable follows the property level, not the code
          m2 == [m EXCEPT !.got = PropGot(self, other, res)] IN
-     /\ pool' = RemoveAt([pool EXCEPT ![i] = m2], j)
+     /\ pool' = DropAt([pool EXCEPT ![i] = m2], j)
      /\ act' = [a |-> "merge", i |-> i, j |-> j, res |-> res, br |-> br, bx |-> bx, known |-> known, bugs |-> bug + (IF known THEN 1 ELSE 0),
                 obs |-> Obs(inst, m2), prop |-> PropObs(inst, m2.got),
                 propres |-> PropResultOk(self, other, res)]
